@@ -22,7 +22,7 @@ CFG = {
             "GetReceiptsByHash, GetBlockReceipts, GetReceipt and judged per receipt on both nodes (gasUsed = cumulative difference, intrinsic <= gasUsed <= gas limit "
             "modulo the refund finding, sum = header.gasUsed, TxHash / ContractAddress / log positions, fast = full field by field); srd: the served per-tx gas vs the model. "
             "Non-trivial = the real code accepted the transaction/block (distinct inputs counted).",
-    "tie": {"core.(*GasPool).SubGas / AddGas / Gas, core.(*StateTransition).useGas (mini-translator)": "translated (go/ssa -> Lean on every run; gasPool_code_is_model, useGas_code_is_model) + corr",
+    "tie": {"core.(*GasPool).SubGas / AddGas / Gas, core.(*StateTransition).useGas / gasUsed (mini-translator)": "translated (go/ssa -> Lean on every run; gasPool_code_is_model, useGas_code_is_model, gasUsed_code_is_model) + corr",
             "core.IntrinsicGas": "corr (ig cases) + gen (constants TxGas.. from the compiled params package)",
             "core.GasPool.AddGas/SubGas": "corr (gp scripts)",
             "StateTransition.TransitionDb/preCheck/buyGas/refundGas (core.ApplyMessage)": "corr (msg cases; EVM observed by a depth-0 tracer and fed to the model as the parameter E)",
